@@ -445,6 +445,10 @@ def solve_pareto_front(
     while opt.check() == z3.sat:
         m = opt.model()
         results.append(_int_values(m))
+        if len(minimize_vars) == 1:
+            # z3 enumerates a front only for two or more objectives: with a single one every
+            # check() returns the same optimum again, and that optimum is the whole front
+            break
         if max_solutions is not None and len(results) >= max_solutions:
             break
 
